@@ -147,9 +147,10 @@ Qed.
     dereferenced again after the temporary mapping has come and gone) agree *)
 Definition fault_stable (addr : N) (s : st) : Prop :=
   let fva := frame_addr (page_from_addr addr) in
-  forall l p f i s1 cp s2 page src dst s3 e3,
-    In (l, p) (walk_items fva) -> resolve s p = Some (f, i) ->
+  forall p f i s1 cp s2 page src dst s3 e3,
+    In (last_level, p) (walk_items fva) -> resolve s p = Some (f, i) ->
     fault_walk go_levels 0 vmm_pdtVirtualAddr fva s None = Ok (Some (f, i)) ->
+    negb (has_flags (rd (mem s) f i) vmm_FlagRW) && has_flags (rd (mem s) f i) vmm_FlagCopyOnWrite = true ->
     alloc s = (s1, Some cp) -> map_temporary cp s1 = Ok (s2, 0, page) ->
     resolve_page s2 fva = Some src -> resolve_page s2 (frame_addr page) = Some dst ->
     unmap_page page (set_mem s2 (cpy (mem s2) src dst)) = Ok (s3, e3) ->
@@ -161,7 +162,7 @@ Definition fw_rel (s : st) (tr : list gcall) (all : list (N * N)) (g : gres (go_
   match g, r with
   | GPanic, Stray => True
   | GOk (w, p), Ok None => w = W tr s /\ p = 0
-  | GOk (w, p), Ok (Some fi) => w = W tr s /\ p <> 0 /\ resolve s p = Some fi /\ exists l, In (l, p) all
+  | GOk (w, p), Ok (Some fi) => w = W tr s /\ p <> 0 /\ resolve s p = Some fi /\ In (last_level, p) all
   | _, _ => False
   end.
 
@@ -180,7 +181,7 @@ Proof.
   assert (HI : forall lv level ta p pe,
              level + N.of_nat (length lv) = 4 ->
              (forall x, In x (walk_items_from lv level ta fva) -> In x (walk_items fva)) ->
-             match pe with None => p = 0 | Some fi => p <> 0 /\ resolve s p = Some fi /\ exists l, In (l, p) (walk_items fva) end ->
+             match pe with None => p = 0 | Some fi => p <> 0 /\ resolve s p = Some fi /\ In (last_level, p) (walk_items fva) end ->
              fw_rel s tr1 (walk_items fva) (gvisit clo (walk_items_from lv level ta fva) (W tr1 s, p))
                     (fault_walk lv level ta fva s pe)).
   { induction lv as [|[sh bits] rest IH]; intros level ta p pe Hlen Hin Hp.
@@ -199,9 +200,10 @@ Proof.
       by (intros x Hx; apply Hin; cbn [walk_items_from In]; right; exact Hx).
     destruct (has_flags (rd (mem s) f i) vmm_FlagPresent) eqn:Epr.
     - rewrite andb_true_r.
-      destruct (level =? last_level).
+      destruct (level =? last_level) eqn:Elv.
       + apply IH; [cbn [length] in Hlen; lia | exact Hin' |].
-        split; [eapply walk_items_nonzero; exact Hea|]. split; [exact Er|]. exists level. exact Hea.
+        split; [eapply walk_items_nonzero; exact Hea|]. split; [exact Er|].
+        apply N.eqb_eq in Elv. rewrite <- Elv. exact Hea.
       + apply IH; [cbn [length] in Hlen; lia | exact Hin' | exact Hp].
     - rewrite andb_false_r. cbn. destruct pe as [fi|]; [|split; [reflexivity|exact Hp]].
       destruct Hp as (H1 & H2 & H3). repeat split; assumption. }
@@ -212,17 +214,19 @@ Proof.
   destruct (gvisit clo (walk_items fva) (W tr1 s, 0)) as [[w p]| |];
     destruct (fault_walk go_levels 0 vmm_pdtVirtualAddr fva s None) as [[[f i]|]|] eqn:Efw; try contradiction; try reflexivity.
   2:{ destruct HI as [-> ->]. cbn [N.eqb negb]. unfold go_vmm_world_seam. wsimp. reflexivity. }
-  destruct HI as (-> & Hp0 & Hr & [l Hin]).
+  destruct HI as (-> & Hp0 & Hr & Hin).
   apply N.eqb_neq in Hp0. rewrite Hp0. cbn [negb].
   unfold go_vmm_world_load_virt at 1 2, vload. wsimp. rewrite Hr.
   assert (HRW : vmm_FlagRW < two64) by reflexivity.
   assert (HCW : vmm_FlagCopyOnWrite < two64) by reflexivity.
   rewrite (has_flags_any _ _ (Hw f i) HRW), (has_flags_any _ _ (Hw f i) HCW).
   set (e := rd (mem s) f i) in *.
-  destruct (negb (has_flags e vmm_FlagRW)); cbn [andb].
+  destruct (negb (has_flags e vmm_FlagRW)) eqn:Enrw; cbn [andb].
   2:{ unfold go_vmm_world_seam. wsimp. reflexivity. }
-  destruct (has_flags e vmm_FlagCopyOnWrite).
+  destruct (has_flags e vmm_FlagCopyOnWrite) eqn:Ecow.
   2:{ unfold go_vmm_world_seam. wsimp. reflexivity. }
+  assert (Hcw : negb (has_flags (rd (mem s) f i) vmm_FlagRW) && has_flags (rd (mem s) f i) vmm_FlagCopyOnWrite = true)
+    by (fold e; rewrite Enrw, Ecow; reflexivity).
   unfold go_vmm_world_seam at 1. wsimp. unfold M.o_alloc.
   destruct (alloc s) as [s1 [cp|]] eqn:Ea.
   2:{ cbn [gerr_eqb negb P.err_of]. unfold go_vmm_world_seam. wsimp. reflexivity. }
@@ -244,7 +248,7 @@ Proof.
   unfold go_vmm_world_seam at 1. wsimp. cbn [P.o_unmap].
   destruct (unmap_page page (set_mem s2 (cpy (mem s2) src dst))) as [[s3 e3]|] eqn:Eu; cbn [P.lift_op]; [|reflexivity].
   wsimp.
-  destruct (Hst l p f i s1 cp s2 page src dst s3 e3 Hin Hr Efw Ea Emt Es Ed Eu) as [Hr3 Hes].
+  destruct (Hst p f i s1 cp s2 page src dst s3 e3 Hin Hr Efw Hcw Ea Emt Es Ed Eu) as [Hr3 Hes].
   assert (Hw3 : P.mem_w64 s3).
   { apply (P.unmap_page_keeps _ _ _ _ Eu). apply keeps_cpy. apply (P.map_temporary_keeps _ _ _ _ _ Emt).
     apply (P.keeps_alloc _ _ _ Ea). exact Hw. }
